@@ -185,4 +185,296 @@ Section Reject.
   Theorem reject_string_defect f d body s l :
     chars len_raw body s -> string_dead l -> value_l strtod f d (34 :: body ++ l) = None.
   Proof. intros Hc Hd. apply reject_dead_string. eapply string_dead_prefix; eassumption. Qed.
+
+  (** * numbers: a token that starts like a number but that strtod does not convert (no digits) *)
+  Lemma reject_unconverted_number f d c r :
+    ((c =? 45) || ((48 <=? c) && (c <=? 57))) = true ->
+    strtod (number_run (Z.to_nat (c_NUMBER_C_STRING_SIZE - 1)) (c :: r)) = None ->
+    value_l strtod f d (c :: r) = None.
+  Proof.
+    intros Hc Hs. destruct f as [|f]; [reflexivity|]. cbn [value_l starts].
+    assert (Hr : 45 <= c <= 57).
+    { apply orb_true_iff in Hc as [Hc|Hc]; [apply Z.eqb_eq in Hc; lia|].
+      apply andb_true_iff in Hc as [A B]. apply Z.leb_le in A, B. lia. }
+    destruct (Z.eqb_spec c 110); [lia|]. destruct (Z.eqb_spec c 102); [lia|]. destruct (Z.eqb_spec c 116); [lia|].
+    destruct (Z.eqb_spec c 34); [lia|]. rewrite Hc. unfold number_l. rewrite Hs. reflexivity.
+  Qed.
+
+  (** * arrays (for any parser [vl] of the element values; in [value_l] it is [value_l f (depth+1)]) *)
+  Section Containers.
+    Variable vl : bytes -> option (node * bytes).
+
+    (* truncated right after the bracket / brace *)
+    Lemma array_truncated r : drop_ws r = [] -> array_l vl r = None.
+    Proof. intro H. unfold array_l. rewrite H. reflexivity. Qed.
+    Lemma object_truncated r : drop_ws r = [] -> object_l vl r = None.
+    Proof. intro H. unfold object_l. rewrite H. reflexivity. Qed.
+
+    (* at any element position (any round k, any elements acc already read): *)
+    (* no value where an element is expected: "[,"  "[1,]"  "[1,,2]"  "[1," end of input *)
+    Lemma elems_no_value k l0 acc : vl (drop_ws l0) = None -> elems_l vl k l0 acc = None.
+    Proof. intro H. destruct k as [|k]; [reflexivity|]. cbn [elems_l]. rewrite H. reflexivity. Qed.
+
+    (* after an element a byte other than , and ]: missing comma "[1 2]", mismatched bracket "[1}" *)
+    Lemma elems_bad_separator k l0 acc v r2 c2 r3 :
+      vl (drop_ws l0) = Some (v, r2) -> drop_ws r2 = c2 :: r3 -> c2 <> 44 -> c2 <> 93 ->
+      elems_l vl k l0 acc = None.
+    Proof.
+      intros Hv Hd H1 H2. destruct k as [|k]; [reflexivity|]. cbn [elems_l]. rewrite Hv, Hd.
+      apply Z.eqb_neq in H1, H2. rewrite H1, H2. reflexivity.
+    Qed.
+
+    (* after an element the input ends: unbalanced "[1" *)
+    Lemma elems_truncated k l0 acc v r2 :
+      vl (drop_ws l0) = Some (v, r2) -> drop_ws r2 = [] -> elems_l vl k l0 acc = None.
+    Proof. intros Hv Hd. destruct k as [|k]; [reflexivity|]. cbn [elems_l]. rewrite Hv, Hd. reflexivity. Qed.
+
+    (* a defect further right is reached through any number of well-formed elements *)
+    Lemma elems_later k l0 acc v r2 r3 :
+      vl (drop_ws l0) = Some (v, r2) -> drop_ws r2 = 44 :: r3 ->
+      elems_l vl k r3 (v :: acc) = None -> elems_l vl (S k) l0 acc = None.
+    Proof. intros Hv Hd H. cbn [elems_l]. rewrite Hv, Hd. cbn [Z.eqb Pos.eqb]. exact H. Qed.
+
+    Lemma array_of_elems r c1 r1 :
+      drop_ws r = c1 :: r1 -> c1 <> 93 -> elems_l vl (S (length r)) (c1 :: r1) [] = None -> array_l vl r = None.
+    Proof.
+      intros Hd Hc H. unfold array_l. rewrite Hd. apply Z.eqb_neq in Hc. rewrite Hc, H. reflexivity.
+    Qed.
+
+    (** * objects *)
+    (* at any member position: *)
+    (* key is not a string: "{1:2}" "{a:1}" "{,"  "{"a":1,}" *)
+    Lemma members_nonstring_key k l0 acc q rq :
+      drop_ws l0 = q :: rq -> q <> 34 -> members_l vl k l0 acc = None.
+    Proof.
+      intros Hd Hq. destruct k as [|k]; [reflexivity|]. cbn [members_l]. rewrite Hd.
+      apply Z.eqb_neq in Hq. rewrite Hq. reflexivity.
+    Qed.
+
+    Lemma members_truncated_key k l0 acc : drop_ws l0 = [] -> members_l vl k l0 acc = None.
+    Proof. intro Hd. destruct k as [|k]; [reflexivity|]. cbn [members_l]. rewrite Hd. reflexivity. Qed.
+
+    (* malformed key string *)
+    Lemma members_bad_key k l0 acc rq :
+      drop_ws l0 = 34 :: rq -> string_dead rq -> members_l vl k l0 acc = None.
+    Proof.
+      intros Hd Hs. destruct k as [|k]; [reflexivity|]. cbn [members_l]. rewrite Hd. cbn [Z.eqb Pos.eqb negb].
+      rewrite (string_l_dead rq Hs). reflexivity.
+    Qed.
+
+    (* missing colon: after the key a byte other than ':' or the end of the input *)
+    Lemma members_missing_colon k l0 acc rq key r2 :
+      drop_ws l0 = 34 :: rq -> string_l rq = Some (key, r2) ->
+      (forall r3, drop_ws r2 <> 58 :: r3) -> members_l vl k l0 acc = None.
+    Proof.
+      intros Hd Hs Hc. destruct k as [|k]; [reflexivity|]. cbn [members_l]. rewrite Hd. cbn [Z.eqb Pos.eqb negb].
+      rewrite Hs. destruct (drop_ws r2) as [|col r3]; [reflexivity|].
+      destruct (Z.eqb_spec col 58) as [->|N]; [exfalso; exact (Hc r3 eq_refl)|reflexivity].
+    Qed.
+
+    (* no value after the colon *)
+    Lemma members_no_value k l0 acc rq key r2 r3 :
+      drop_ws l0 = 34 :: rq -> string_l rq = Some (key, r2) -> drop_ws r2 = 58 :: r3 ->
+      vl (drop_ws r3) = None -> members_l vl k l0 acc = None.
+    Proof.
+      intros Hd Hs Hc Hv. destruct k as [|k]; [reflexivity|]. cbn [members_l]. rewrite Hd. cbn [Z.eqb Pos.eqb negb].
+      rewrite Hs, Hc. cbn [Z.eqb Pos.eqb negb]. rewrite Hv. reflexivity.
+    Qed.
+
+    (* after a member a byte other than , and }: missing comma, mismatched bracket, or the end *)
+    Lemma members_bad_separator k l0 acc rq key r2 r3 v0 r4 :
+      drop_ws l0 = 34 :: rq -> string_l rq = Some (key, r2) -> drop_ws r2 = 58 :: r3 ->
+      vl (drop_ws r3) = Some (v0, r4) ->
+      (forall r5, drop_ws r4 <> 44 :: r5) -> (forall r5, drop_ws r4 <> 125 :: r5) ->
+      members_l vl k l0 acc = None.
+    Proof.
+      intros Hd Hs Hc Hv H1 H2. destruct k as [|k]; [reflexivity|]. cbn [members_l]. rewrite Hd. cbn [Z.eqb Pos.eqb negb].
+      rewrite Hs, Hc. cbn [Z.eqb Pos.eqb negb]. rewrite Hv. cbv zeta.
+      destruct (drop_ws r4) as [|c2 r5]; [reflexivity|].
+      destruct (Z.eqb_spec c2 44) as [->|N1]; [exfalso; exact (H1 r5 eq_refl)|].
+      destruct (Z.eqb_spec c2 125) as [->|N2]; [exfalso; exact (H2 r5 eq_refl)|reflexivity].
+    Qed.
+
+    Lemma members_later k l0 acc rq key r2 r3 v0 r4 r5 :
+      drop_ws l0 = 34 :: rq -> string_l rq = Some (key, r2) -> drop_ws r2 = 58 :: r3 ->
+      vl (drop_ws r3) = Some (v0, r4) -> drop_ws r4 = 44 :: r5 ->
+      members_l vl k r5 (with_key key v0 :: acc) = None -> members_l vl (S k) l0 acc = None.
+    Proof.
+      intros Hd Hs Hc Hv H4 H. cbn [members_l]. rewrite Hd. cbn [Z.eqb Pos.eqb negb].
+      rewrite Hs, Hc. cbn [Z.eqb Pos.eqb negb]. rewrite Hv, H4. cbn [Z.eqb Pos.eqb]. exact H.
+    Qed.
+
+    Lemma object_of_members r c1 r1 :
+      drop_ws r = c1 :: r1 -> c1 <> 125 -> members_l vl (S (length r)) (c1 :: r1) [] = None -> object_l vl r = None.
+    Proof.
+      intros Hd Hc H. unfold object_l. rewrite Hd. apply Z.eqb_neq in Hc. rewrite Hc, H. reflexivity.
+    Qed.
+  End Containers.
+
+  (** from the container to the value *)
+  Lemma value_l_array f d r :
+    value_l strtod (S f) d (91 :: r) =
+    if c_CJSON_NESTING_LIMIT <=? d then None else array_l (value_l strtod f (d + 1)) r.
+  Proof. reflexivity. Qed.
+  Lemma value_l_object f d r :
+    value_l strtod (S f) d (123 :: r) =
+    if c_CJSON_NESTING_LIMIT <=? d then None else object_l (value_l strtod f (d + 1)) r.
+  Proof. reflexivity. Qed.
+
+  Lemma reject_array f d r : (forall vl, array_l vl r = None) -> value_l strtod f d (91 :: r) = None.
+  Proof. intro H. destruct f as [|f]; [reflexivity|]. rewrite value_l_array, H. destruct (_ <=? _); reflexivity. Qed.
+  Lemma reject_object f d r : (forall vl, object_l vl r = None) -> value_l strtod f d (123 :: r) = None.
+  Proof. intro H. destruct f as [|f]; [reflexivity|]. rewrite value_l_object, H. destruct (_ <=? _); reflexivity. Qed.
+
+  (** concrete shapes, in any context to the right *)
+  (* "[" ws* "," : extra comma; "[" ws* "}" : mismatched bracket; in general "[" ws* c for c starting no value and c <> "]" *)
+  Theorem reject_array_first_byte f d r c r1 :
+    drop_ws r = c :: r1 -> c <> 93 -> value_start_byte c = false -> value_l strtod f d (91 :: r) = None.
+  Proof.
+    intros Hd Hc Hs. destruct f as [|f]; [reflexivity|]. rewrite value_l_array.
+    destruct (_ <=? _); [reflexivity|].
+    eapply array_of_elems; [exact Hd|exact Hc|]. apply elems_no_value.
+    assert (Hw : drop_ws (c :: r1) = c :: r1).
+    { cbn [drop_ws]. destruct (Z.leb_spec c 32) as [Hle|]; [|reflexivity].
+      exfalso. clear -Hd Hle. induction r as [|x r IH]; [discriminate|].
+      cbn [drop_ws] in Hd. destruct (Z.leb_spec x 32); [auto|]. inversion Hd; subst. lia. }
+    rewrite Hw. apply reject_bad_first_byte. exact Hs.
+  Qed.
+
+  (* "[" ws* end of input *)
+  Theorem reject_array_unclosed f d r : drop_ws r = [] -> value_l strtod f d (91 :: r) = None.
+  Proof. intro H. apply reject_array. intro vl. apply array_truncated. exact H. Qed.
+  Theorem reject_object_unclosed f d r : drop_ws r = [] -> value_l strtod f d (123 :: r) = None.
+  Proof. intro H. apply reject_object. intro vl. apply object_truncated. exact H. Qed.
+
+  (* "{" ws* c for c other than the quote and "}": unquoted or non-string key, "{," "{]" "{1:2}" *)
+  Theorem reject_object_nonstring_key f d r c r1 :
+    drop_ws r = c :: r1 -> c <> 125 -> c <> 34 -> value_l strtod f d (123 :: r) = None.
+  Proof.
+    intros Hd Hc Hq. apply reject_object. intro vl.
+    eapply object_of_members; [exact Hd|exact Hc|].
+    assert (Hw : drop_ws (c :: r1) = c :: r1).
+    { cbn [drop_ws]. destruct (Z.leb_spec c 32) as [Hle|]; [|reflexivity].
+      exfalso. clear -Hd Hle. induction r as [|x r IH]; [discriminate|].
+      cbn [drop_ws] in Hd. destruct (Z.leb_spec x 32); [auto|]. inversion Hd; subst. lia. }
+    eapply members_nonstring_key; [exact Hw|exact Hq].
+  Qed.
+
+  (** * nesting *)
+  Theorem reject_too_deep_array f d r : c_CJSON_NESTING_LIMIT <= d -> value_l strtod f d (91 :: r) = None.
+  Proof.
+    intro H. destruct f as [|f]; [reflexivity|]. rewrite value_l_array.
+    apply Z.leb_le in H. rewrite H. reflexivity.
+  Qed.
+  Theorem reject_too_deep_object f d r : c_CJSON_NESTING_LIMIT <= d -> value_l strtod f d (123 :: r) = None.
+  Proof.
+    intro H. destruct f as [|f]; [reflexivity|]. rewrite value_l_object.
+    apply Z.leb_le in H. rewrite H. reflexivity.
+  Qed.
 End Reject.
+
+(** * nesting deeper than the limit *)
+
+Lemma drop_ws_app_nonws w c r : ws len_ws w -> 32 < c -> drop_ws (w ++ c :: r) = c :: r.
+Proof.
+  unfold ws. induction w as [|x w IH]; intros Hw Hc.
+  - cbn [app drop_ws]. destruct (Z.leb_spec c 32); [lia|reflexivity].
+  - cbn [forallb] in Hw. apply andb_true_iff in Hw as [Hx Hw]. unfold len_ws in Hx.
+    cbn [app drop_ws]. rewrite Hx. apply IH; assumption.
+Qed.
+
+(** n opening brackets, each followed by arbitrary lenient whitespace *)
+Definition open_brackets (wl : list bytes) : bytes := concat (map (fun w => 91 :: w) wl).
+
+Theorem reject_deep_brackets strtod : forall wl f d l,
+  Forall (ws len_ws) wl -> wl <> [] -> c_CJSON_NESTING_LIMIT < d + Z.of_nat (length wl) ->
+  value_l strtod f d (open_brackets wl ++ l) = None.
+Proof.
+  induction wl as [|w wl IH]; intros f d l Hws Hne Hd; [congruence|].
+  inversion Hws as [|? ? Hw Hws']; subst.
+  unfold open_brackets. cbn [map concat]. cbn [app]. rewrite <- app_assoc.
+  destruct f as [|f]; [reflexivity|]. rewrite value_l_array.
+  destruct (Z.leb_spec c_CJSON_NESTING_LIMIT d) as [Hle|Hgt]; [reflexivity|].
+  destruct wl as [|w' wl'].
+  - cbn [length] in Hd. lia.
+  - fold (open_brackets (w' :: wl')).
+    assert (Hrest : exists rest, open_brackets (w' :: wl') ++ l = 91 :: rest).
+    { unfold open_brackets. cbn [map concat app]. eexists. reflexivity. }
+    destruct Hrest as (rest & Hrest).
+    eapply array_of_elems.
+    + rewrite Hrest. apply drop_ws_app_nonws; [exact Hw|lia].
+    + lia.
+    + apply elems_no_value. cbn [drop_ws]. cbn [Z.leb Z.compare Pos.compare Pos.compare_cont].
+      rewrite <- Hrest. apply IH; [exact Hws'|discriminate|].
+      cbn [length] in Hd |- *. lia.
+Qed.
+
+(** * the tree of an accepted text nests within the limit *)
+
+Section JvInd.
+  Variable P : jv -> Prop.
+  Hypothesis Hnull : P JNull.
+  Hypothesis Hbool : forall b, P (JBool b).
+  Hypothesis Hnum : forall t, P (JNum t).
+  Hypothesis Hstr : forall s, P (JStr s).
+  Hypothesis Harr : forall l, Forall P l -> P (JArr l).
+  Hypothesis Hobj : forall m, Forall (fun kv => P (snd kv)) m -> P (JObj m).
+  Fixpoint jv_ind' (v : jv) : P v :=
+    match v with
+    | JNull => Hnull
+    | JBool b => Hbool b
+    | JNum t => Hnum t
+    | JStr s => Hstr s
+    | JArr l => Harr l ((fix go (l : list jv) : Forall P l :=
+                           match l with [] => Forall_nil P | x :: r => Forall_cons x (jv_ind' x) (go r) end) l)
+    | JObj m => Hobj m ((fix go (m : list (bytes * jv)) : Forall (fun kv => P (snd kv)) m :=
+                           match m with
+                           | [] => Forall_nil _
+                           | (k, x) :: r => Forall_cons (k, x) (jv_ind' x : P (snd (k, x))) (go r)
+                           end) m)
+    end.
+End JvInd.
+
+Lemma node_depth_set_key k n : node_depth (set_key k n) = node_depth n.
+Proof. destruct n. reflexivity. Qed.
+
+Lemma node_depth_tree_of strtod v : (node_depth (tree_of strtod v) <= S (depth_of v))%nat.
+Proof.
+  induction v as [|b|t|s|l IH|m IH] using jv_ind'.
+  - cbn. lia.
+  - destruct b; cbn; lia.
+  - cbn. lia.
+  - cbn. lia.
+  - cbn [tree_of depth_of node_depth]. apply le_n_S.
+    induction IH as [|x r Hx Hr IHr]; [lia|]. cbn [depth_of] in *. lia.
+  - cbn [tree_of depth_of node_depth]. apply le_n_S.
+    induction IH as [|[k x] r Hx Hr IHr]; [lia|]. cbn [snd] in Hx. rewrite node_depth_set_key. lia.
+Qed.
+
+Theorem accepted_depth strtod l rnt t rest :
+  strtod_ok strtod -> strtod_stable strtod ->
+  text_l strtod l rnt = Some (t, rest) -> (node_depth t <= S nesting_limit)%nat.
+Proof.
+  intros Hok Hst H.
+  destruct (sound_text _ _ _ _ _ Hok Hst H) as (pre & v & _ & Htxt & -> & _).
+  apply text_depth in Htxt. pose proof (node_depth_tree_of strtod v). lia.
+Qed.
+
+(** * whole texts *)
+
+(** the value is refused, so is the text *)
+Lemma text_l_reject strtod l rnt :
+  (forall f, value_l strtod f 0 (drop_ws (match starts [239; 187; 191] l with Some r => r | None => l end)) = None) ->
+  text_l strtod l rnt = None.
+Proof. intro H. unfold text_l. rewrite H. reflexivity. Qed.
+
+(** termination required: after the value and nonzero whitespace comes a byte other than zero,
+    or the declared input ends *)
+Lemma text_l_reject_unterminated strtod l t rest0 :
+  value_l strtod (S (length l)) 0 (drop_ws (match starts [239; 187; 191] l with Some r => r | None => l end)) = Some (t, rest0) ->
+  (forall r, drop_ws_nz rest0 <> 0 :: r) -> text_l strtod l true = None.
+Proof.
+  intros Hv Hz. unfold text_l. rewrite Hv.
+  destruct (drop_ws_nz rest0) as [|c r]; [reflexivity|].
+  destruct (Z.eqb_spec c 0) as [->|N]; [exfalso; exact (Hz r eq_refl)|reflexivity].
+Qed.
